@@ -14,6 +14,10 @@ def run(ctx):
                               env={"VERIF_GRAPH": res["dot"], "VERIF_PREFILL": prefill,
                                    "VERIF_MAX_EDGES": 1200 if ctx.thorough else 400}, timeout=1200)
         vlib.absorb(ctx, rep, "prefill%d" % prefill)
+    # the registry as the event loop uses it: registrations (also ones the poller refuses), closes, the shutdown pattern
+    for tags, name in (("verif gc_opt", "matrix"), ("verif", "map")):
+        rep = vlib.go_harness(ctx, ".", "TestVerifRegistryInLoop", name="inloop-" + name, tags=tags, timeout=300)
+        vlib.absorb(ctx, rep, "inloop-" + name)
     ctx.assumptions += ["TLC 1.8.0", "model dimensions (2x3 / 3x3) stand for 256x65536; the real row boundary is reached by pre-filling",
                         "iteration either visits only or removes every visited entry (the two patterns the code base uses)"]
     return vlib.finish(ctx, "model_checking",
